@@ -33,13 +33,13 @@ class aggregate_node_transformer(ast.NodeTransformer):
             if (node.func.id == "len" or node.func.id == "Count") and (len(node.args) == 1):
                 # This is a len(sequence) call, which should be turned into a .Count() call.
                 return _generate_count_call(self.visit(node.args[0]))
-            elif node.func.id == "Sum":
+            elif node.func.id == "Sum" and (len(node.args) == 1):
                 return _generate_count_call(self.visit(node.args[0]), "lambda acc,v: acc + v")
-            elif node.func.id == "Max":
+            elif node.func.id == "Max" and (len(node.args) == 1):
                 return _generate_count_call(
                     self.visit(node.args[0]), "lambda acc,v: acc if acc > v else v"
                 )
-            elif node.func.id == "Min":
+            elif node.func.id == "Min" and (len(node.args) == 1):
                 return _generate_count_call(
                     self.visit(node.args[0]), "lambda acc,v: acc if acc < v else v"
                 )
